@@ -613,7 +613,7 @@ func (e *Exec) callByContract(st *State, c *FuncContract, callee *ssa.Function, 
 		}
 	}
 	mk := func(s, old *State) *specCtx {
-		x := &specCtx{e: e, st: s, old: old, vars: vars, bound: map[string]Val{}, extra: map[string]string{}, pkg: pkg, resName: resNames}
+		x := &specCtx{e: e, st: s, old: old, vars: vars, bound: map[string]Val{}, extra: map[string]string{}, pkg: pkg, resName: resNames, callee: true}
 		x.where = fmt.Sprintf("%s (called from %s)", name, e.fn.String())
 		return x
 	}
@@ -774,6 +774,18 @@ func (e *Exec) loopVars(fn *ssa.Function, l *loopInfo, st *State, at *ssa.BasicB
 	for _, b := range fn.Blocks {
 		for _, ins := range b.Instrs {
 			ord++
+			if phi, isPhi := ins.(*ssa.Phi); isPhi && phi.Comment != "" && b != l.header && (b == at || b.Dominates(at)) {
+				// a merge of several assignments to a variable (x := a; if c { x = b }) has no debug
+				// reference of its own: the phi is the variable's value from here on
+				if v, ok := st.vals[phi]; ok {
+					c := cand{v: v, blk: b, ord: ord}
+					old, has := best[phi.Comment]
+					if !has || old.isConst || (old.blk == c.blk && c.ord > old.ord) || (old.blk != c.blk && old.blk.Dominates(c.blk)) {
+						best[phi.Comment] = c
+					}
+				}
+				continue
+			}
 			d, ok := ins.(*ssa.DebugRef)
 			if !ok || d.IsAddr {
 				continue
@@ -870,8 +882,12 @@ func (e *Exec) loopVars(fn *ssa.Function, l *loopInfo, st *State, at *ssa.BasicB
 	}
 	// iterator positions of string ranges
 	for k := range e.memSort {
-		if strings.HasPrefix(k, "IT|") {
+		if strings.HasPrefix(k, "IT|") && !strings.HasPrefix(k, "IT|N:") && !strings.HasPrefix(k, "IT|V:") {
 			vars["iterpos"] = Val{T: tInt, S: e.memGet(st, k, e.sc.idx())}
+		}
+		// itercount: entries produced so far by the function's range over a map
+		if strings.HasPrefix(k, "IT|N:"+fn.Name()+".") {
+			vars["itercount"] = Val{T: tInt, S: e.memGet(st, k, e.sc.idx())}
 		}
 	}
 	return vars
